@@ -407,9 +407,8 @@ def check(obs, line):
                     hits.append(("not-exactly-once", f"message {k} (rc {rc}, qos {obs['qos'][k]}) appears {n} times on the wire across a reconnect"))
                 if accepted and obs["qos"][k] > 0 and obs["published"][k] is not True:
                     hits.append(("not-completed", f"message {k} never completed"))
-                if rc == 0 and obs["qos"][k] == 0 and obs["published"][k] is not True:
-                    # an accepted QoS 0 message is either written (published) or reported lost by reconnect()
-                    hits.append(("qos0-never-resolved", f"QoS 0 message {k} was accepted (rc 0) but is neither published nor reported lost: wait_for_publish() would hang"))
+                # (a QoS 0 message still queued when the controller disconnects - it does not wait for QoS 0 messages in
+                # these runs, the connection having been lost once - is simply not sent: "at most once")
                 continue
             if accepted and n != 1:
                 hits.append(("not-exactly-once", f"message {k} (rc {rc}) appears {n} times on the wire"))
@@ -424,7 +423,7 @@ def check(obs, line):
 
 class ThreadStream:
     name = "threads"
-    props = ["C07"]
+    props = ["C07", "C14"]
     has_model = False
 
     def gen(self, rng, tier):
@@ -449,7 +448,20 @@ class ThreadStream:
                 hits.append((i, clause, f"{line}: {detail}"))
         return hits
 
-    monitors = {"C07": monitor_C07}
+    def monitor_C14(self, case, obs):
+        """packet ids under concurrency: every id returned to a caller is in 1..65535 and no two callers get the same"""
+        import json
+        hits = []
+        for i, (line, o) in enumerate(zip(case, obs)):
+            d = json.loads(o)
+            mids = d["mids"]
+            if len(set(mids)) != len(mids):
+                hits.append((i, "mids-not-distinct", f"{line}: returned mids {mids}"))
+            if any(not 1 <= m <= 65535 for m in mids):
+                hits.append((i, "mid-range", f"{line}: returned mids {mids}"))
+        return hits
+
+    monitors = {"C07": monitor_C07, "C14": monitor_C14}
 
     def correspondence(self, case, obs):
         import json
